@@ -32,6 +32,7 @@ type unit struct {
 	t     *ty
 	vals  []string
 	feats []string
+	extra string // further statements of the unit function (DeepEqual probes over a generated pointer graph)
 }
 
 func genProgram(t *rapid.T) (files map[string]string, units []unit, mode int) {
@@ -95,6 +96,13 @@ func genProgram(t *rapid.T) (files map[string]string, units []unit, mode int) {
 		}
 		units = append(units, u)
 	}
+	// DeepEqual over generated pointer graphs (cycles, sharing, interior pointers)
+	graphDecls := graphTypes
+	for i, n := 0, rapid.IntRange(2, 5).Draw(t, "ngraphs"); i < n; i++ {
+		decl, body, feats := genGraph(t, len(units))
+		graphDecls += decl
+		units = append(units, unit{t: basicTy("int"), vals: []string{"int(1)", "int(2)"}, feats: feats, extra: body})
+	}
 	mode = rapid.IntRange(0, 3).Draw(t, "mode") % 3 // the full walker twice as often
 	uniq := func(l []string) string {
 		seen := map[string]bool{}
@@ -124,8 +132,10 @@ func genProgram(t *rapid.T) (files map[string]string, units []unit, mode int) {
 		if len(u.vals) > 1 {
 			fmt.Fprintf(&m, "\tdeq(%d, \"other\", %s, %s)\n", i, boxed(te, u.vals[0]), boxed(te, u.vals[1]))
 		}
+		m.WriteString(u.extra)
 		m.WriteString("}\n\n")
 	}
+	m.WriteString(graphDecls)
 	m.WriteString("func main() {\n")
 	for i := range units {
 		fmt.Fprintf(&m, "\tunit%d()\n", i)
